@@ -2,8 +2,20 @@ TRUST = 'Trusted: CPython 3.12, the refmodel package (small executable reference
 CLAIMED['C01'] = ('exploration', 'deterministic simulation: seeded read-chunking/source-kind/buffer-size schedules vs reference tokeniser',
   'Seeded search over interchange texts x (source kind, chunk plan, refill-buffer size) schedules; every yielded segment is compared with an independent reference tokeniser and the normal-form law is checked on the formatted output. Exploration is the right level: the quantifier is over all chunkings and texts, which can only be sampled, but the stream seam is fully controlled so short reads, refill boundaries and the path branch are reached deterministically.',
   TRUST, 'DESIGN.md §4 C01')
+CLAIMED['C04'] = ('fault_enumeration', 'deterministic simulation: message faults (drop/duplicate/reorder/corrupt) on the segment stream vs independent envelope recount',
+  'A consistent envelope skeleton is hit by 0..3 message faults from a 24-kind catalogue; the quick/thorough tiers additionally enumerate every fault kind at every applicable position of base skeletons. The reader\'s reported envelope errors are compared with an independent sequential recount (exact multiset when properly nested, at least one error otherwise). Fault enumeration fits: the property is about which discrepancies are flagged, and the fault catalogue x position space of small skeletons can be swept.',
+  TRUST, 'DESIGN.md §4 C04')
+CLAIMED['C11'] = ('exploration', 'deterministic simulation: seeded write histories, Close() at every prefix, interleaved writers vs reference writer model',
+  'Well-nested write histories with supplied/wrong/omitted trailers are executed on the real X12Writer with Close() injected after every prefix (a crash-like close at an arbitrary instant) and several writers interleaved; the sink write history is compared with a reference writer model, an independent recount and a re-read with the real reader.',
+  TRUST, 'DESIGN.md §4 C11')
+CLAIMED['C17'] = ('exploration', 'deterministic simulation: seeded set/get call histories on Segment vs list-of-lists model; path grammar laws as per-operation invariant',
+  'Call histories of set/get/get_value with every designator shape are checked call by call against an executable model (set-then-get, padding, other positions unchanged, foreign ids refused); every path used is parsed/printed/re-parsed against the documented grammar. The path half is a pure function and rides along as an invariant; the level is claimed for the history half.',
+  TRUST, 'DESIGN.md §4 C17')
+CLAIMED['C20'] = ('exploration', 'deterministic simulation: x12norm.main() in-process on scratch files, all option vectors, injected count faults vs reference tokeniser/recount',
+  'The normaliser runs on real files by path under every option combination and destination; outputs are compared with the reference tokeniser\'s normal form, re-normalised for idempotence, and with -f the recount of the output must be free of count/HL01 defects with no other value altered.',
+  TRUST, 'DESIGN.md §4 C20')
 _PENDING = 'check not built yet in this round (planned, DESIGN.md §12); not a statement about applicability'
-for _p in ['C02','C03','C04','C05','C06','C07','C08','C09','C10','C11','C12','C17','C18','C19','C20']:
+for _p in ['C02','C03','C05','C06','C07','C08','C09','C10','C12','C18','C19']:
     NA[_p] = _PENDING
 NA['C13'] = 'pure stateless function of (value, type, charset, version): no stream, state, clock, schedule or fault for a simulator to control; deciding it is bounded-exhaustive enumeration against a reference recogniser, which is outside this technique family (indirectly sampled through C02/C03 value generation)'
 NA['C14'] = 'pure function over a finite domain (notes x presence patterns x lengths); the property itself asks for complete enumeration, i.e. model checking / exhaustive testing, not seeded simulation (indirectly sampled through C02/C03 syntax-note faults)'
